@@ -20,6 +20,11 @@ off; stage results must be equal except for the cache diagnostics.  Components:
   suff    Lean-evaluated monitors on the UNCACHED runs: two real calls whose MODEL keys (T1) / effective inputs
           (T2: key + index + label map + rest) are equal returned equal fresh results
   etag    the store's etag is a faithful function of the graph content on everything observed
+  (sweep/hist: multi-graph T1 histories (two contributing active graphs), store outages during apply, and a LATER
+          cache-hit turn after every kind of turn, so that repo code editing a cached / served object during an ordinary
+          turn shows up as hit != fresh on the next hit.  `mutate_returned` is a NON-DECIDING diagnostic: the harness,
+          acting as a caller, edits the containers of the results a turn handed out; a divergence that needs that edit is
+          outside the property's operation alphabet and only produces a note in the evidence)
   runops  `runOps` (the function of `C05_runOps_transparent`) on the TTL LRU / LRUBytes / off instances vs. the
           real containers driven through the code's `hit → return; miss → compute, put` pattern
 """
@@ -61,7 +66,9 @@ ASSUMPTIONS = [
     "bypasses every version counter and is outside the property",
     "sha1 (store etag, quality digest) and json.dumps(sort_keys) (`stable_key`) are treated as injective on the values they are given",
     "ctx.enc (a custom embedding adapter object) is constant within a history; the contents of an aliasing map file are not varied",
-    "one active graph (`g:surface`); the parallel T1/T2 paths are C09's subject",
+    "one or two active graphs (`g:surface`, `g:aux`); the parallel T1/T2 paths are C09's subject",
+    "callers do not edit the T1Result / T2Result objects they are handed (not an operation of the property's history alphabet; the caches "
+    "store the served object by reference: Lean C05_reference_semantics_transparent); the harness reports value sharing as a note only",
 ]
 TRUSTED = [
     "harness/lib/turnrig.py (drives the real run_turn), harness/lib/c05_hist.py (cache switches, spies, read-set extraction), "
@@ -89,9 +96,9 @@ CLAIM = {
     "design_ref": "DESIGN.md §4 C05, §5 rows 6-8",
 }
 
-BUDGET = {"quick": 120, "thorough": 2600, "search": 2500}
+BUDGET = {"quick": 90, "thorough": 2600, "search": 2500}
 MAX_FAILURES = 30      # a verdict exists: stop generating (bounds the run time under a grossly broken cache)
-RUNOPS_BUDGET = {"quick": 200, "thorough": 6000, "search": 6000}
+RUNOPS_BUDGET = {"quick": 150, "thorough": 6000, "search": 6000}
 T2_PAYLOAD_BASE = {"q", "exact_recent_days", "sim_threshold", "clusters_top_m", "owner_scope", "owner", "k_retrieval", "now",
                    "ranking", "residual_cap", "k_surface", "label_map"}
 
@@ -192,9 +199,11 @@ def check_keys(case: dict, on: List[dict], batch: Batch, ti_offset: int = 0) -> 
             raw = x1["raw"]
             t1_cached = case["mode"].startswith("t1") or case["mode"].startswith("all")
             if raw["_seeds"] and t1_cached:
-                if len(x1["real"]) != 1:
+                if len(x1["real"]) != 1 and raw.get("_ngraphs", 1) == 1:
                     diffs.append(f"turn {ti}: T1 asked the cache {len(x1['real'])} times for one graph with seeds")
                 for k in x1["real"]:
+                    if isinstance(k, list) and len(k) > 1 and k[1] != raw["_gid"] and raw.get("_ngraphs", 1) > 1:
+                        continue      # the key of a further active graph (its budgets depend on what the first one used)
                     if not (isinstance(k, list) and len(k) >= 7 and k[0] == "t1"):
                         diffs.append(f"turn {ti}: T1 ckey shape {json.dumps(k)[:200]}")
                         continue
@@ -204,7 +213,7 @@ def check_keys(case: dict, on: List[dict], batch: Batch, ti_offset: int = 0) -> 
                     if H.code(k[4]) != raw["mult"]:
                         diffs.append(f"turn {ti}: T1 ckey edge_mult {k[4]}")
                     batch.add(dict(_pub(raw), c="c05.t1eff"), kind="t1", ti=ti, real=json.loads(k[5]), case=case)
-            elif x1["real"] and not raw["_seeds"]:
+            elif x1["real"] and not raw["_seeds"] and raw.get("_ngraphs", 1) == 1:
                 diffs.append(f"turn {ti}: T1 consulted the cache without seeds")
         for ci, x2 in enumerate(o.get("x2") or []):
             raw = x2["raw"]
@@ -287,8 +296,9 @@ def etag_pairs(obs: List[dict], acc: Dict[str, set], acc2: Dict[int, set]) -> No
     for o in obs:
         x1 = o.get("x1")
         if x1 and "__err__" not in x1["raw"]:
-            acc.setdefault(x1["raw"]["_etag"], set()).add(x1["raw"]["graph"])
-            acc2.setdefault(x1["raw"]["graph"], set()).add(x1["raw"]["_etag"])
+            g0 = x1["raw"].get("_graph0", x1["raw"]["graph"])
+            acc.setdefault(x1["raw"]["_etag"], set()).add(g0)
+            acc2.setdefault(g0, set()).add(x1["raw"]["_etag"])
 
 
 def _turn_positions(case: dict) -> List[int]:
@@ -361,6 +371,28 @@ def process(ctx: Ctx, comp: str, case: dict, batch: Batch, etags: Tuple[dict, di
     if div:
         # attribution by read-set difference (fill request vs served request); a divergence whose differing
         # dimensions are all recorded findings needs no minimisation
+        if case.get("mutate_returned"):
+            # NON-DECIDING diagnostic.  A caller editing the containers of a result it was handed is not an operation of
+            # the property's history alphabet (turns, graph edits, memory adds, applies, agent switches, config changes)
+            # and nothing in the repo edits a T1/T2 result after the stage returned it.  Only a divergence that is there
+            # WITHOUT the caller's edit counts; one that needs it is recorded as a note.
+            plain = {k: v for k, v in case.items() if k != "mutate_returned"}
+            try:
+                on_p, off_p, div_p = run_pair(ctx, plain)
+            except Exception:
+                on_p, off_p, div_p = on, off, None
+            if not div_p:
+                n = ctx.extra.setdefault("value_sharing_diagnostic", {"histories": 0, "caches": []})
+                n["histories"] += 1
+                cache = D.cache_of(case["mode"], div)
+                if cache not in n["caches"]:
+                    n["caches"].append(cache)
+                    ctx.note(f"diagnostic (non-deciding): the value stored in the {cache} cache is shared with callers; it would "
+                             f"matter only if a caller edited the results it was handed (outside the property's alphabet)")
+                div = None
+            else:
+                case, on, off, div = plain, on_p, off_p, div_p
+    if div:
         key, keys = D.classify2(case, on, off, div)
         small, d2 = case, div
         recorded = any(k.get("key") == key and k.get("status", "open") == "open" for k in ctx.known)
